@@ -995,6 +995,7 @@ class Slices(Stream):
         for k in known_for('C10'):
             if k.get('signature') and re.search(k['signature'], why):
                 return None
+        why = re.sub(r'^validation #\d+ of the session: ', '', why)
         cat = why.split(':')[0]
         kinds = frozenset(re.sub(r'\[\d+\]', '', r) for r in why.split(': ', 1)[-1].split(', ')
                           if not re.fullmatch(KNOWN_REASON, r)) if cat == 'accepted-not-allowed' else frozenset()
